@@ -14,6 +14,31 @@ impl<'a> Tr<'a> {
         if let Some(v) = self.tr_mut_method(m, env)? {
             return Ok(v);
         }
+        // `x.fmt(f)`: `Display::fmt` of a translated type appends to the formatter buffer
+        if name == "fmt" && args.len() == 1 && Self::is_place(args[0]) {
+            if let Ok(p) = self.place(args[0], env) {
+                if p.cur.ty == Ty::Fmt && p.steps.is_empty() {
+                    let x = self.tr_expr(&m.receiver, env, None)?;
+                    let piece = self.display_of(&x)?;
+                    let new = if piece.ends_with(" [])") {
+                        // `(UL.Src.T.fmt x [])` -> `(UL.Src.T.fmt x f)`
+                        format!("{} {})", &piece[..piece.len() - 4], p.cur.t)
+                    } else {
+                        format!("({} ++ {})", p.cur.t, piece)
+                    };
+                    self.mutate(&p, new, "`.fmt(f)`")?;
+                    return Ok(Val::pure_("()", Ty::FmtRes));
+                }
+            }
+        }
+        // `x.to_string()`: what `Display` writes into an empty buffer
+        if name == "to_string" && args.is_empty() {
+            let x = self.tr_expr(&m.receiver, env, None)?;
+            if let Ty::Named(_) = &x.ty {
+                let piece = self.display_of(&x)?;
+                return Ok(Val { t: piece, ty: Ty::Str, ..x });
+            }
+        }
         let recv = self.tr_expr(&m.receiver, env, None)?;
         if recv.callres && !(name == "map_err" && matches!(recv.ty, Ty::ResPE(_))) {
             return self.unsup(format!("`.{}` on the result of a call to a Result-returning function (it may have panicked)", name));
